@@ -673,6 +673,9 @@ def _step_checks(ctx: Context, q: str, steps: list[int]) -> int:
                                 and a.value.args[0] is sub
                             ):
                                 continue
+                            # a plain copy of the name into another local (a helper's parameter) reads nothing of the reply
+                            if type(a) is ast.Assign and a.value is sub and all(isinstance(t_, ast.Name) for t_ in a.targets):
+                                continue
                             early.append(n)
         if gate_nodes:
             ck.check(
